@@ -7,7 +7,9 @@ import (
 	"go/constant"
 	"go/token"
 	"go/types"
+	"regexp"
 	"sort"
+	"strconv"
 	"strings"
 
 	"golang.org/x/tools/go/ssa"
@@ -59,8 +61,12 @@ func ComputeNoRet(p *core.Prog) *NoRet {
 			}
 		}
 	}
+	lastNoRet = nr
 	return nr
 }
+
+// lastNoRet is the most recently computed no-return set (used when summarising predicate helpers).
+var lastNoRet *NoRet
 
 func (nr *NoRet) Is(fn *ssa.Function) bool { return fn != nil && nr.set[fn] }
 
@@ -489,8 +495,24 @@ var swapOp = map[token.Token]token.Token{token.EQL: token.EQL, token.NEQ: token.
 // NormGuard renders a guard positively in all equivalent comparison forms, e.g. the false edge of
 // (a < b) yields "(a >= b)" and "(b <= a)". Non-comparison conditions yield "expr" or "!expr".
 func NormGuard(g Guard) []string {
-	c := g.Cond
-	pol := g.Pol
+	out := normCond(g.Cond, g.Pol)
+	// a call to a small predicate helper of the repository implies the conditions that hold on every
+	// path to that result ("extract a boolean helper" must not hide the guard from the rules)
+	c, pol := g.Cond, g.Pol
+	for {
+		if u, ok := c.(*ssa.UnOp); ok && u.Op == token.NOT {
+			c, pol = u.X, !pol
+			continue
+		}
+		break
+	}
+	if call, ok := c.(*ssa.Call); ok {
+		out = append(out, impliedByPredicate(call, pol, 0)...)
+	}
+	return out
+}
+
+func normCond(c ssa.Value, pol bool) []string {
 	for {
 		if u, ok := c.(*ssa.UnOp); ok && u.Op == token.NOT {
 			c = u.X
@@ -516,6 +538,162 @@ func NormGuard(g Guard) []string {
 		return []string{Expr(c)}
 	}
 	return []string{"!" + Expr(c)}
+}
+
+// predSummary: guard strings (over the callee's parameters a0, a1, ...) that hold whenever the
+// predicate returns true / false.
+type predSummary struct {
+	ok           bool
+	whenT, whenF []string
+}
+
+var predCache = map[*ssa.Function]*predSummary{}
+
+var reParamTok = regexp.MustCompile(`\ba([0-9]+)\b`)
+
+func impliedByPredicate(call *ssa.Call, pol bool, depth int) []string {
+	callee := call.Call.StaticCallee()
+	if callee == nil || callee.Blocks == nil || depth > 1 || call.Call.IsInvoke() {
+		return nil
+	}
+	ps := summarisePredicate(callee, depth)
+	if ps == nil || !ps.ok {
+		return nil
+	}
+	src := ps.whenF
+	if pol {
+		src = ps.whenT
+	}
+	if len(src) == 0 {
+		return nil
+	}
+	args := make([]string, len(call.Call.Args))
+	for i, a := range call.Call.Args {
+		args[i] = Expr(a)
+	}
+	var out []string
+	for _, g := range src {
+		out = append(out, reParamTok.ReplaceAllStringFunc(g, func(m string) string {
+			i, _ := strconv.Atoi(m[1:])
+			if i < len(args) {
+				return args[i]
+			}
+			return m
+		}))
+	}
+	return out
+}
+
+func summarisePredicate(fn *ssa.Function, depth int) *predSummary {
+	if ps, ok := predCache[fn]; ok {
+		return ps
+	}
+	ps := &predSummary{}
+	predCache[fn] = ps // also cuts recursion
+	res := fn.Signature.Results()
+	if res.Len() != 1 || len(fn.Blocks) > 12 || fn.Recover != nil {
+		return ps
+	}
+	if b, ok := res.At(0).Type().Underlying().(*types.Basic); !ok || b.Kind() != types.Bool {
+		return ps
+	}
+	// side-effect free in the sense that matters: it stores nothing and starts nothing
+	for _, b := range fn.Blocks {
+		for _, ins := range b.Instrs {
+			switch ins.(type) {
+			case *ssa.Store, *ssa.MapUpdate, *ssa.Send, *ssa.Go, *ssa.Defer, *ssa.Panic, *ssa.Select:
+				return ps
+			}
+		}
+	}
+	f := New(fn, lastNoRet)
+	type contrib struct {
+		forms map[string]bool
+		val   ssa.Value
+	}
+	var contribs []contrib
+	guardSet := func(gs []Guard) map[string]bool {
+		m := map[string]bool{}
+		for _, g := range gs {
+			for _, s := range normCond(g.Cond, g.Pol) {
+				m[s] = true
+			}
+		}
+		return m
+	}
+	for _, r := range f.Returns() {
+		vals := f.ReturnValues(r)
+		if len(vals) != 1 {
+			return ps
+		}
+		v := vals[0]
+		if phi, ok := v.(*ssa.Phi); ok && phi.Block() == r.Block() {
+			for i, e := range phi.Edges {
+				pb := phi.Block().Preds[i]
+				if !f.reach[pb.Index] {
+					continue
+				}
+				m := guardSet(f.BlockGuards(pb.Index))
+				if iff, ok := pb.Instrs[len(pb.Instrs)-1].(*ssa.If); ok && len(pb.Succs) == 2 && pb.Succs[0] != pb.Succs[1] {
+					for _, s := range normCond(iff.Cond, pb.Succs[0] == phi.Block()) {
+						m[s] = true
+					}
+				}
+				contribs = append(contribs, contrib{m, e})
+			}
+			continue
+		}
+		contribs = append(contribs, contrib{guardSet(f.BlockGuards(r.Block().Index)), v})
+	}
+	if len(contribs) == 0 {
+		return ps
+	}
+	var tsets, fsets []map[string]bool
+	with := func(m map[string]bool, extra []string) map[string]bool {
+		o := map[string]bool{}
+		for k := range m {
+			o[k] = true
+		}
+		for _, e := range extra {
+			o[e] = true
+		}
+		return o
+	}
+	for _, c := range contribs {
+		if k, ok := c.val.(*ssa.Const); ok && k.Value != nil {
+			if constant.BoolVal(k.Value) {
+				tsets = append(tsets, c.forms)
+			} else {
+				fsets = append(fsets, c.forms)
+			}
+			continue
+		}
+		tsets = append(tsets, with(c.forms, normCond(c.val, true)))
+		fsets = append(fsets, with(c.forms, normCond(c.val, false)))
+	}
+	inter := func(sets []map[string]bool) []string {
+		if len(sets) == 0 {
+			return nil
+		}
+		var out []string
+		for k := range sets[0] {
+			all := true
+			for _, s := range sets[1:] {
+				if !s[k] {
+					all = false
+					break
+				}
+			}
+			if all && !strings.Contains(k, "local:") && !strings.Contains(k, "phi(") {
+				out = append(out, k)
+			}
+		}
+		sort.Strings(out)
+		return out
+	}
+	ps.whenT, ps.whenF = inter(tsets), inter(fsets)
+	ps.ok = true
+	return ps
 }
 
 // AllGuardForms lists all normalised guard strings of an instruction (for diagnostics and matching).
